@@ -268,6 +268,9 @@ func (c12Sim) Run(e *Env, ci interface{}) {
 			e.Skip("foreign-panic-in-local-command")
 			continue
 		}
+		if lres.aborted || rres.aborted {
+			return
+		}
 		lclass, rclass := outcomeClass(lres.err), outcomeClass(rres.err)
 		bothMissing := false
 		if cm.Kind == "diff" || cm.Kind == "copy" {
@@ -311,6 +314,19 @@ func (c12Sim) Run(e *Env, ci interface{}) {
 			rtree = treeBytes(dstL)
 			rclass = outcomeClass(rres.err)
 			rout = normaliseOut(rres.out, e.Dir, bothMissing)
+		}
+		if os.Getenv("WSIM_DEBUG") != "" {
+			var lk, rk []string
+			for k := range ltree {
+				lk = append(lk, k)
+			}
+			for k := range rtree {
+				rk = append(rk, k)
+			}
+			sort.Strings(lk)
+			sort.Strings(rk)
+			fmt.Fprintf(os.Stderr, "DEBUG ltree %v rtree %v\n", lk, rk)
+			fmt.Fprintf(os.Stderr, "DEBUG cmd %d: local %s (%v) remote %s (%v) fired=%v\nLOUT %q\nROUT %q\n", i, lclass, lres.err, rclass, rres.err, fired, lout, rout)
 		}
 		if lclass == "parse-error" {
 			e.Skip("rejected-by-flag-parser")
